@@ -180,6 +180,9 @@ def run(prop, cfg, seed, trace=None, max_steps=None):
     harness_error = None
     try:
         try:
+            # the managers as constructed (possibly from explicit levels)
+            w.cur = dict(op='construct')
+            w.check_invariants(['C14'], ['C14'], ['C14'], where='after construction')
             if trace is not None:
                 for ins in trace:
                     executed.append(ins)
